@@ -5,7 +5,7 @@ rows).  A per-row diff monitor compares the SET of (row, field) pairs that chang
 """
 import random
 
-from .. import env
+from .. import env, util
 from ..gen import queries as gq
 from ..model import refsem
 from . import common
@@ -231,9 +231,64 @@ def leg_js_values(res, spec):
         node.close()
 
 
+def leg_host_syntax(ns, res, spec):
+    """Right-hand sides written in the host language's own syntax that puts `name =` or `name =>` behind a comma (keyword arguments, arrow functions,
+    default parameters, comparison chains): they are expressions, not further assignments."""
+    from ..js import bridge
+    rng = random.Random(spec['seed'] * 3331 + 17)
+    PY = [
+        ("update a2 = int(a1, base=16)", lambda r: [r[0], int(r[0], 16), r[2]]),
+        ("update a1 = a3.split(' ', maxsplit=1)[0], a3 = a1", lambda r: [r[2].split(' ', 1)[0], r[1], r[0]]),
+        ("update a3 = sorted([a1, a2], key=len)[0], a1 = a3", lambda r: [r[2], r[1], sorted([r[0], r[1]], key=len)[0]]),
+        ("update a2 = '{x}-{y}'.format(x=a1, y=a3)", lambda r: [r[0], '%s-%s' % (r[0], r[2]), r[2]]),
+        ("update a1 = max(a2, a3, key=len) where len(a1) >= 1", lambda r: [max(r[1], r[2], key=len), r[1], r[2]]),
+        ("update a2 = dict(k=a1, v = a3)['v']", lambda r: [r[0], r[2], r[2]]),
+        ("update a3 = (lambda p, q=a1: p + q)(a2)", lambda r: [r[0], r[1], r[1] + r[0]]),
+    ]
+    JS = [
+        ("update a2 = a2.replace(/[ab]/g, m => m.toUpperCase())", lambda r: [r[0], ''.join(c.upper() if c in 'ab' else c for c in r[1]), r[2]]),
+        ("update a1 = [a1, a2].reduce((x, y) => x + y, ''), a3 = a1", lambda r: [r[0] + r[1], r[1], r[0]]),
+        ("update a3 = ((p, q = a1) => p + q)(a2)", lambda r: [r[0], r[1], r[1] + r[0]]),
+        ("update a2 = [a1, a3].map((v, i) => i + v).join('|')", lambda r: [r[0], '0%s|1%s' % (r[0], r[2]), r[2]]),
+    ]
+    for n in range(spec['n']):
+        A = [[rng.choice(['a', 'b', 'ab', '1f', '10', 'c0']), rng.choice(['a', 'bb', 'x y', 'ab']), rng.choice(['p q r', 'b', 'a b', 'zz'])] for _ in range(rng.randrange(1, 5))]
+        q, f = PY[n % len(PY)]
+        exp = [f(r) for r in A]
+        out, err = [], None
+        try:
+            ns.rbql.query_table(q, [list(r) for r in A], out, [])
+        except Exception as e:
+            err = '%s: %s' % (util.error_class(e), str(e)[:120])
+        res.evaluations += 1
+        res.count('host_syntax_update_runs:py')
+        res.nontrivial('host-syntax', q, repr(A))
+        if err is not None or out != exp:
+            res.violation('py:host-syntax-right-hand-side', '[py] %s over %r -> %r (error %r) ; expected %r' % (q, A, out, err, exp), {'leg': 'host-syntax', 'query_text': q, 'A': A, 'engine': 'py'})
+    node = bridge.Node.start()
+    if node is None:
+        return
+    try:
+        reqs, meta = [], []
+        for n in range(spec['n']):
+            A = [[rng.choice(['a', 'b', 'ab', 'cab']), rng.choice(['a', 'bb', 'x y', 'ab']), rng.choice(['p', 'b', 'a b'])] for _ in range(rng.randrange(1, 5))]
+            q, f = JS[n % len(JS)]
+            reqs.append({'query': q, 'input': A, 'join': None, 'input_cols': None, 'join_cols': None})
+            meta.append((q, A, [f(r) for r in A]))
+        outs = node.call({'op': 'query_batch', 'cases': reqs})['results']
+        for (q, A, exp), o in zip(meta, outs):
+            res.evaluations += 1
+            res.count('host_syntax_update_runs:js')
+            if o['error'] is not None or o['out'] != exp:
+                res.violation('js:host-syntax-right-hand-side', '[js] %s over %r -> %r (error %r) ; expected %r' % (q, A, o['out'], o['error'] and o['error']['msg'][:100], exp), {'leg': 'host-syntax', 'query_text': q, 'A': A, 'engine': 'js'})
+    finally:
+        node.close()
+    res.sample({'leg': 'host-syntax', 'queries': [x[0] for x in PY[:3]] + [x[0] for x in JS[:2]]})
+
+
 def plan(tier, seed):
     k = NSHARDS[tier]
-    return [{'k': k, 'i': i, 'n': CASES[tier] // k} for i in range(k)] + [{'kind': 'typed-update', 'i': i, 'n': 150 if tier == 'quick' else 2000} for i in range(2 if tier == 'quick' else 6)] + [{'kind': 'js-values', 'i': 0, 'n': 300 if tier == 'quick' else 4000}]
+    return [{'k': k, 'i': i, 'n': CASES[tier] // k} for i in range(k)] + [{'kind': 'typed-update', 'i': i, 'n': 150 if tier == 'quick' else 2000} for i in range(2 if tier == 'quick' else 6)] + [{'kind': 'js-values', 'i': 0, 'n': 300 if tier == 'quick' else 4000}, {'kind': 'host-syntax', 'n': 140 if tier == 'quick' else 1400}]
 
 
 def run_shard(spec, res):
@@ -242,6 +297,8 @@ def run_shard(spec, res):
         return leg_typed_update(ns, res, spec)
     if spec.get('kind') == 'js-values':
         return leg_js_values(res, spec)
+    if spec.get('kind') == 'host-syntax':
+        return leg_host_syntax(ns, res, spec)
     rng = random.Random(spec['seed'] * 49979687 + spec['i'])
     js = common.JsLeg(res, PROPERTY, classify_js)
     try:
@@ -282,7 +339,7 @@ def summarize(tier, seed, m):
     shapes = sorted(k[6:] for k in m['counters'] if k.startswith('shape:'))
     return {
         'rule': 'UPDATE [SET] lists of 1-3 assignments with targets aN / a[N] / a.name / a["name"], swaps and cycles (a1 = a2, a2 = a3, a3 = a1), right-hand sides from the typed vocabulary incl. NU, NR and b-fields, WHERE true / false / partial, INNER and LEFT JOIN with 0 / 1 / 2 partners, ragged tables with the target beyond a short record; systematic sweep over the 16 combinations of {where, join, cycle, beyond}. a typed leg: ten UPDATE shapes (fractional results into an integer column, swaps between int and float columns, NU * 1.5, a number into a bool column, a string into a numeric column and back, None, products beyond 2**32, WHERE on typed cells) over dataframes with int64 / int8 / float64 / float32 / bool / object columns through query_pandas_dataframe and over a sqlite table through query_sqlite_to_csv and four shapes over an all-numeric frame (int64 identifiers beyond 2**53 next to float64) - every assigned field must hold the right-hand side value, every other field its own; a JS values leg: arrays holding NaN, Infinity, undefined, Date, BigInt, nested arrays and a BOM-led string under plain / filtered / joined / never-matching UPDATEs - every unassigned field and every non-matching record comes out as it went in, the arrays of the caller stay as they were; distinct_nontrivial = distinct (query, tables) that change at least one cell or must fail.',
-        'required': ['js_value_update_runs', 'typed_update_runs:pandas-all-numeric', 'typed_update_runs:pandas', 'typed_update_runs:sqlite', 'py_cases', 'row_diff_checks', 'rows_with_changes', 'predicted_missing_field_errors', 'js_cases'],
+        'required': ['js_value_update_runs', 'host_syntax_update_runs:py', 'host_syntax_update_runs:js', 'typed_update_runs:pandas-all-numeric', 'typed_update_runs:pandas', 'typed_update_runs:sqlite', 'py_cases', 'row_diff_checks', 'rows_with_changes', 'predicted_missing_field_errors', 'js_cases'],
         'extra': {'shapes_seen': shapes},
         'assumptions': ['rv/model/refsem.py _run_update is the UPDATE semantics of the statement'],
     }
